@@ -431,6 +431,7 @@ def check_scenario(res, drv, sc, rec):
     amounts = {}
     req_key, req_pre, req_proc = {}, {}, {}
     prev_users = []
+    grant_time = {}
     nontrivial = False
     diverged = False
 
@@ -464,6 +465,7 @@ def check_scenario(res, drv, sc, rec):
         # preemption rule (statement): only a preempting request evicts, the victim is the worst current user and is
         # strictly worse than the request in (priority, time)
         cur_users = list(prev_users)
+        users_before = list(prev_users)
         for (vproc, bproc, _since, _own) in op['preempted']:
             # (the evicting request is the latest request of the process named in the Preempted cause; it may have
             # been queued earlier and is served now)
@@ -514,7 +516,19 @@ def check_scenario(res, drv, sc, rec):
                     for (k, vid, v) in op['grants']]
         model_log = [g for g in model['log'] if not g.startswith('X')]
         model_pre = [g for g in model['log'] if g.startswith('X')]
-        impl_pre = ['X%s:%d:%d:%d' % ('?', v, b, us) for (v, b, us, ok) in op['preempted']]
+        # (a `usage_since` that is not a number is the impossible time -999999: it can never agree with the model)
+        impl_pre = ['X%s:%d:%d:%d' % ('?', v, b, us if isinstance(us, (int, float)) else -999999) for (v, b, us, ok) in op['preempted']]
+        # the details the victim's process is interrupted with: `usage_since` is the time at which the evicted request got its slot
+        for (k, vid, v) in op['grants']:
+            if k == 'P':
+                grant_time[vid] = op['now']
+        evicted = [u for u in users_before if u not in snap['users']]
+        if meta['op'] == 'put' and len(evicted) == len(op['preempted']):
+            for vid_e, (v, b, us, ok) in zip(evicted, op['preempted']):
+                if vid_e in grant_time and us != grant_time[vid_e]:
+                    res.violation({'clause': 'preempted_details', 'kind': kind},
+                                  '%s: request %d got its slot at %s, but its process is interrupted with Preempted(usage_since=%r)'
+                                  % (kind, vid_e, grant_time[vid_e], us), dict(case, op_index=i))
         same = all(snap[k] == model[k] for k in ('level', 'items', 'users', 'putQ', 'getQ')) \
             and impl_log == model_log and \
             [p.split(':', 1)[1] for p in impl_pre] == [p.split(':', 1)[1] for p in model_pre]
